@@ -142,14 +142,14 @@ theorem C18_concat_targets_first_unchanged {perms : Nat → List Nat} (hp : Perm
 
 /-- re-reading a written file recovers every name and sequence, for every wrap width -/
 theorem C18_fasta_roundtrip (w : Nat) (hw : 1 ≤ w) (es : List (List Char × List Char))
-    (hne : es ≠ []) (h : ∀ e ∈ es, NameOK e.1 ∧ SeqOK e.2) :
+    (h : ∀ e ∈ es, NameOK e.1 ∧ SeqOK e.2) :
     parseFasta [renderFasta w es] = some es :=
-  parseFasta_renderFasta w hw es hne h
+  parseFasta_renderFasta_any w hw es h
 
 /-- whatever the parser returns has names without blank/line break and sequences without
 line break (so the only hypothesis left for a round trip is "no `>` inside a sequence") -/
 theorem C18_parse_clean (files : List (List Char)) (ts : List (List Char × List Char))
-    (h : parseFasta files = some ts) : ts ≠ [] ∧ ∀ t ∈ ts, NameOK t.1 ∧ BreakFree t.2 :=
+    (h : parseFasta files = some ts) : ∀ t ∈ ts, NameOK t.1 ∧ BreakFree t.2 :=
   parseFasta_clean h
 
 /-- `make_decoys` end to end: whenever the inputs parse, the output is written, and
@@ -161,7 +161,7 @@ theorem C18_make_decoys_reread {perms : Nat → List Nat} (hp : PermFamily perms
     (hparse : parseFasta files = some ts) (hgt : ∀ t ∈ ts, '>' ∉ t.2) :
     ∃ out, makeDecoys perms pre cut block concat w files = some out ∧
       parseFasta [out] = some ((if concat then ts else []) ++ ts.map (decoySpec perms pre cut block)) := by
-  obtain ⟨hne, hclean⟩ := parseFasta_clean hparse
+  have hclean := parseFasta_clean hparse
   have htOK : ∀ t ∈ ts, NameOK t.1 ∧ SeqOK t.2 := fun t ht =>
     ⟨(hclean t ht).1, fun c hc => ⟨(hclean t ht).2 c hc, fun h0 => hgt t ht (h0 ▸ hc)⟩⟩
   have hdOK : ∀ d ∈ ts.map (decoySpec perms pre cut block), NameOK d.1 ∧ SeqOK d.2 := by
@@ -182,8 +182,7 @@ theorem C18_make_decoys_reread {perms : Nat → List Nat} (hp : PermFamily perms
     cases concat
     · simp [hd.2]
     · simp [hd.1]
-  · apply parseFasta_renderFasta w hw
-    · cases concat <;> simp [hne]
+  · apply parseFasta_renderFasta_any w hw
     · intro e he
       rcases List.mem_append.mp he with he | he
       · cases concat
@@ -495,7 +494,13 @@ example : ∀ e ∈ [(['s', 'p', '|', 'A'], ['M', 'K', 'A', 'C', 'D', 'E', 'K', 
 #guard (makeDecoys revPerm "decoy_".toList kr noBlock true 70
     [">a desc x\nMKAAAAAAKBBBBR\nCCCCC\n".toList, ">b\n\n>c\r\nKACDEFK\n".toList]).map String.ofList
   == some ">a\nMKAAAAAAKBBBBRCCCCC\n>b\n\n>c\nKACDEFK\n>decoy_a\nMKAAAAAAKBBBBRCCCCC\n>decoy_b\n\n>decoy_c\nKAFEDCK"
-#guard makeDecoys revPerm "decoy_".toList kr noBlock true 70 [[]] == none
+-- an empty file denotes no protein: an empty output file (before the repair f95d0dc: IndexError)
+#guard makeDecoys revPerm "decoy_".toList kr noBlock true 70 [[]] == some []
+-- a bare `>` at the end of the input is a record without header line: IndexError
+#guard makeDecoys revPerm "decoy_".toList kr noBlock true 70 [">a\nAB\n>".toList] == none
+-- an empty first file / a leading blank line (before the repair: `>>a`, `>decoy_>a`)
+#guard (makeDecoys revPerm "decoy_".toList kr noBlock true 70 [[], "\n\n>a\nAB\n".toList]).map String.ofList
+  == some ">a\nAB\n>decoy_a\nAB"
 #guard parseFasta [renderFasta 3 [("x".toList, "ABCDEFGH".toList), ("y".toList, [])]]
     == some [("x".toList, "ABCDEFGH".toList), ("y".toList, [])]
 
